@@ -1,31 +1,359 @@
 package rules
 
 import (
+	"fmt"
+	"go/ast"
+	"go/types"
+
 	"verif/checker/core"
 )
 
 // cacheLocks is the guarded-by table of tsm1's Cache, entry and ring partitions
-// (confirmed by reading cache.go / ring.go).
+// (confirmed by reading cache.go / ring.go). The same table is reused by C39.
 var cacheLocks = &core.LockRules{
 	Pkg: tsm1,
 	Guards: []core.Guard{
 		{Type: "Cache", Fields: []string{"store", "snapshot", "snapshotting", "snapshotAttempts", "lastWriteTime"}, Locks: []string{"mu"}},
-		{Type: "entry", Fields: []string{"values", "vtype"}, Locks: []string{"mu"}},
+		{Type: "entry", Fields: []string{"values"}, Locks: []string{"mu"}},
 		{Type: "partition", Fields: []string{"store"}, Locks: []string{"mu"}},
 	},
+	// the snapshot Cache object hangs off its parent and is protected by the parent's lock
+	OwnedBy:     []string{"snapshot"},
 	CallerHolds: map[string]map[string]byte{},
 	ExemptFunc:  map[string]string{},
-	ExemptAccess: map[string]string{},
+	ExemptAccess: map[string]string{
+		"Cache.Split:store":                "runs on the snapshot object handed to the compactor (Compactor.WriteSnapshot); no writer touches a snapshot's store while it is being flushed",
+		"Cache.values:store":               "same: only called on the snapshot object inside the compactor's cache key iterator",
+		"Engine.LoadMetadataIndex:values":  "runs during Engine.Open before the shard accepts writes (single goroutine)",
+		"cacheKeyIterator.encode:values":   "iterates entries of the read-only snapshot being written by the compactor",
+	},
 }
 
 func init() {
 	register(&Prop{
-		ID:          "C09",
-		Patterns:    []string{"./tsdb/engine/tsm1"},
-		Level:       "other",
-		Explanation: "lockset (guarded-by) analysis of the cache",
-		Run: func(p *core.Prog, r *core.Report, tier string) {
-			core.RuleLocks(r, p, cacheLocks, "guarded-by", 40)
-		},
+		ID:       "C09",
+		Patterns: []string{"./tsdb/engine/tsm1"},
+		Level:    "other",
+		Technique: "static analysis: lockset (guarded-by) dataflow over go/cfg with inferred wrapper summaries, atomic-only field rule, check-then-act (re-check under write lock) rule, path/ordering rules for the size accounting",
+		Explanation: "Necessary conditions of a race-free, size-bounded newest-wins cache, decided on every function of package tsm1: " +
+			"(1) guarded-by: Cache.{store,snapshot,snapshotting,snapshotAttempts,lastWriteTime} are accessed only with Cache.mu held (write mode for writes; the snapshot object's fields under the parent's lock), entry.values only under entry.mu, the ring partition map only under partition.mu — accesses from other types (Engine) included; " +
+			"(2) atomic-only: Cache.size / snapshotSize are touched only through sync/atomic; " +
+			"(3) get-or-create atomicity: partition.write inserts a new entry only after re-checking the map under the write lock (otherwise two racing first writers of a key lose one writer's acknowledged values and double-count the size); " +
+			"(4) limit-before-store: in Cache.WriteMulti every store.write and the optimistic increaseSize are reachable only through the not-exceeded branch of the size-limit test, and a failed store.write passes decreaseSize before the loop continues; " +
+			"(5) delete accounting: in Cache.DeleteRange every store.remove / entry.filter is accompanied by a decreaseSize on the same loop iteration; " +
+			"(6) type conflict: entry.add and newEntryValues return ErrFieldTypeConflict from a comparison of valueType(v) with the entry's type before any value is stored; " +
+			"(7) newest-wins merge order in Cache.Values: snapshot entry appended before the hot entry, result passed through Values.Deduplicate after the copy; " +
+			"(8) Cache.Snapshot swaps stores and moves size→snapshotSize inside one critical section; ClearSnapshot(true) zeroes snapshotSize.",
+		NotCovered:  "linearizability of concrete histories; exact size arithmetic; races on state that is not in the table.",
+		Assumptions: []string{"lock identity is by access path: two different expressions for the same object are treated as different locks (conservative: reports, never hides)", "deferred closures see the lock state at their registration"},
+		Run:         runC09,
 	})
+}
+
+func runC09(p *core.Prog, r *core.Report, tier string) {
+	core.RuleLocks(r, p, cacheLocks, "guarded-by", 60)
+	core.RuleAtomicOnly(r, p, tsm1, "Cache", []string{"size", "snapshotSize"}, 8)
+
+	pk := p.Pkg(tsm1)
+	if pk == nil {
+		return
+	}
+	// (3) get-or-create
+	if f := r.Need(p, tsm1, "partition.write"); f != nil {
+		core.RuleRecheckUnderLock(r, f, "recheck-under-lock", core.LookupField(pk.Types, "partition", "store"))
+	}
+
+	// (4) limit before store
+	if f := r.Need(p, tsm1, "Cache.WriteMulti"); f != nil {
+		const rule = "limit-before-store"
+		g := f.Graph()
+		info := f.Info()
+		limErr := g.Select(g.Calling(call("tsdb/engine/tsm1.ErrCacheMemorySizeLimitExceeded")))
+		if r.Check(len(limErr) == 1, rule, f.String(), "limit-error:absent", f.Pos(), "the size-limit rejection exists") {
+			guards := g.EnclosingGuards(limErr[0])
+			if r.Check(len(guards) >= 1, rule, f.String(), "limit-guard:absent", g.Line(limErr[0]), "the rejection is conditional") {
+				// the innermost guard is the limit test; effects must lie behind its other branch
+				guard := guards[len(guards)-1]
+				other := guard.Sibling()
+				// the limit test reads maxSize and the current size
+				maxSize := core.LookupField(pk.Types, "Cache", "maxSize")
+				readsMax, readsSize := false, false
+				limVar := map[types.Object]bool{}
+				ast.Inspect(f.Decl.Body, func(n ast.Node) bool {
+					if as, ok := n.(*ast.AssignStmt); ok && len(as.Lhs) == 1 && len(as.Rhs) == 1 {
+						mentions := false
+						ast.Inspect(as.Rhs[0], func(x ast.Node) bool {
+							if se, ok := x.(*ast.SelectorExpr); ok && core.FieldOf(info, se) == maxSize {
+								mentions = true
+							}
+							if c, ok := x.(*ast.CallExpr); ok && call("tsdb/engine/tsm1.Cache.Size")(info, c) {
+								mentions = true
+							}
+							return true
+						})
+						if mentions {
+							if o := core.ObjOf(info, as.Lhs[0]); o != nil {
+								limVar[o] = true
+							}
+						}
+					}
+					return true
+				})
+				ast.Inspect(guard.Cond, func(x ast.Node) bool {
+					if id, ok := x.(*ast.Ident); ok && limVar[info.Uses[id]] {
+						readsMax = true
+						readsSize = true
+					}
+					if se, ok := x.(*ast.SelectorExpr); ok && core.FieldOf(info, se) == maxSize {
+						readsMax = true
+					}
+					return true
+				})
+				r.Check(readsMax && readsSize, rule, f.String(), "limit-test-operands", g.Line(guard.From), "the limit test compares values derived from Cache.maxSize and Cache.Size()")
+				reach := g.ReachFromEntry(nil, func(e *core.Edge) bool { return e == other })
+				effects := g.Select(core.AnyOf(g.Calling(call("tsdb/engine/tsm1.storer.write")), g.Calling(call("tsdb/engine/tsm1.Cache.increaseSize"))))
+				r.Check(len(effects) >= 3, rule, f.String(), "effects:count", f.Pos(), fmt.Sprintf("%d store.write/increaseSize sites (>= 3 confirmed by reading)", len(effects)))
+				for _, n := range effects {
+					r.Check(!reach[n], rule, f.String(), "effect-before-limit-test", g.Line(n), "store.write / increaseSize happen only after the size limit test passed (a rejected write stores nothing)")
+				}
+			}
+		}
+		// failed store.write → decreaseSize before the iteration ends
+		dec := g.Calling(call("tsdb/engine/tsm1.Cache.decreaseSize"))
+		n := 0
+		for _, w := range g.Select(g.Calling(call("tsdb/engine/tsm1.storer.write"))) {
+			fail, _, ok := g.ErrEdges(w)
+			if !ok {
+				r.Bad(rule, f.String(), "store.write-unchecked", g.Line(w), "the error of store.write is not tested")
+				continue
+			}
+			n++
+			body := core.ThenBody(fail.To)
+			esc := false
+			for x := range g.Reach([]*core.Node{fail.To}, dec, nil) {
+				if body == nil || !core.InRegion(x, body) {
+					esc = true
+				}
+			}
+			r.Check(!esc, rule, f.String(), "failed-write-not-unaccounted", g.Line(w), "a failed store.write gives back the optimistically added size before going on")
+		}
+		r.Check(n >= 1, rule, f.String(), "store.write:absent", f.Pos(), "store.write call found")
+	}
+
+	// (5) delete accounting
+	if f := r.Need(p, tsm1, "Cache.DeleteRange"); f != nil {
+		const rule = "delete-accounting"
+		g := f.Graph()
+		dec := g.Calling(call("tsdb/engine/tsm1.Cache.decreaseSize"))
+		mut := g.Select(core.AnyOf(g.Calling(call("tsdb/engine/tsm1.storer.remove")), g.Calling(call("tsdb/engine/tsm1.entry.filter"))))
+		r.Check(len(mut) >= 3, rule, f.String(), "mutations:count", f.Pos(), fmt.Sprintf("%d remove/filter sites (>= 3 confirmed)", len(mut)))
+		// loop head: the synthetic node every iteration returns to
+		var heads []*core.Node
+		for _, n := range g.Nodes {
+			if n.N == nil && g.OnCycle(n) {
+				heads = append(heads, n)
+			}
+		}
+		for _, m := range mut {
+			// either a decreaseSize precedes m within the iteration, or follows it before the next iteration
+			fw := g.Reach(core.After(m, nil), dec, nil)
+			leaks := false
+			for _, h := range heads {
+				if fw[h] {
+					leaks = true
+				}
+			}
+			if leaks {
+				// accept when a decreaseSize dominates m inside the iteration
+				dom := true
+				for _, h := range heads {
+					if g.Reach(core.After(h, nil), dec, nil)[m] {
+						dom = false
+					}
+				}
+				leaks = !dom
+			}
+			r.Check(!leaks, rule, f.String(), "mutation-without-decreaseSize", g.Line(m), "every removal/filter of cached values adjusts the accounted size in the same iteration")
+		}
+		// removal of a whole key gives back the key length too
+		core.RuleHasCall(r, f, rule, "storer.entry", call("tsdb/engine/tsm1.storer.entry"))
+	}
+
+	// (6) type conflict
+	for _, name := range []string{"entry.add", "newEntryValues"} {
+		if f := r.Need(p, tsm1, name); f != nil {
+			const rule = "type-conflict"
+			g := f.Graph()
+			info := f.Info()
+			// a return of ErrFieldTypeConflict guarded by a condition that calls valueType
+			ok := false
+			for _, x := range g.Exits {
+				rs, isRet := x.N.(*ast.ReturnStmt)
+				if !isRet {
+					continue
+				}
+				isConflict := false
+				for _, res := range rs.Results {
+					if se, ok := ast.Unparen(res).(*ast.SelectorExpr); ok {
+						if v, ok := info.Uses[se.Sel].(*types.Var); ok && v.Name() == "ErrFieldTypeConflict" {
+							isConflict = true
+						}
+					}
+				}
+				if !isConflict {
+					continue
+				}
+				for _, e := range g.EnclosingGuards(x) {
+					if len(core.CallsIn(info, e.Cond, call("tsdb/engine/tsm1.valueType"), core.WalkOpts{})) > 0 {
+						ok = true
+					}
+				}
+			}
+			r.Check(ok, rule, f.String(), "conflict-test:absent", f.Pos(), "returns ErrFieldTypeConflict under a test that compares valueType(v) with the entry's type")
+			// the conflict test precedes taking the entry lock / storing values
+			if name == "entry.add" {
+				vals := core.LookupField(pk.Types, "entry", "values")
+				stores := g.Select(g.Assigning(vals))
+				r.Check(len(stores) >= 2, rule, f.String(), "stores:count", f.Pos(), "value stores found")
+				vt := g.Select(g.Calling(call("tsdb/engine/tsm1.valueType")))
+				// no store is followed by the (first) type test: test comes first
+				if len(vt) > 0 {
+					after := g.Reach(core.After(stores[0], nil), nil, nil)
+					r.Check(!after[vt[0]], rule, f.String(), "test-after-store", g.Line(vt[0]), "the type test is not executed after values were already stored")
+				}
+			}
+		}
+	}
+
+	// (7) Cache.Values merge order
+	if f := r.Need(p, tsm1, "Cache.Values"); f != nil {
+		const rule = "newest-wins-order"
+		g := f.Graph()
+		info := f.Info()
+		// appends to the local `entries` slice: first the snapshot entry, then the hot entry
+		var apps []*core.Node
+		var what []string
+		snapField := core.LookupField(pk.Types, "Cache", "snapshot")
+		// variable assigned from c.snapshot.store.entry(...)
+		snapVar := map[types.Object]bool{}
+		ast.Inspect(f.Decl.Body, func(n ast.Node) bool {
+			if as, ok := n.(*ast.AssignStmt); ok && len(as.Lhs) == 1 && len(as.Rhs) == 1 {
+				if c, ok := as.Rhs[0].(*ast.CallExpr); ok && call("tsdb/engine/tsm1.storer.entry")(info, c) {
+					viaSnap := false
+					ast.Inspect(c.Fun, func(x ast.Node) bool {
+						if se, ok := x.(*ast.SelectorExpr); ok && core.FieldOf(info, se) == snapField {
+							viaSnap = true
+						}
+						return true
+					})
+					if viaSnap {
+						snapVar[core.ObjOf(info, as.Lhs[0])] = true
+					}
+				}
+			}
+			return true
+		})
+		for _, n := range g.Nodes {
+			as, ok := n.N.(*ast.AssignStmt)
+			if !ok || len(as.Rhs) != 1 {
+				continue
+			}
+			c, ok := as.Rhs[0].(*ast.CallExpr)
+			if !ok || !core.Builtin("append")(info, c) || len(c.Args) != 2 {
+				continue
+			}
+			if t, ok := info.TypeOf(c.Args[0]).(*types.Slice); !ok || t.Elem().String() != "*"+core.Mod+"/tsdb/engine/tsm1.entry" {
+				continue
+			}
+			apps = append(apps, n)
+			if snapVar[core.ObjOf(info, c.Args[1])] {
+				what = append(what, "snapshot")
+			} else {
+				what = append(what, "hot")
+			}
+		}
+		if r.Check(len(apps) == 2 && len(snapVar) == 1, rule, f.String(), "shape", f.Pos(), "two appends to the merge list, one of the snapshot entry and one of the hot entry") {
+			okOrder := what[0] == "snapshot" && what[1] == "hot" && !g.Reach(core.After(apps[1], nil), nil, nil)[apps[0]]
+			r.Check(okOrder, rule, f.String(), "snapshot-before-hot", g.Line(apps[0]), "the snapshot entry is placed before the hot entry, so Deduplicate lets hot values win")
+		}
+		// Deduplicate after the copy loop, on every non-nil return
+		dd := g.Select(g.Calling(call("tsdb/engine/tsm1.Values.Deduplicate")))
+		cp := g.Select(g.Calling(core.Builtin("copy")))
+		if r.Check(len(dd) >= 1 && len(cp) >= 1, rule, f.String(), "dedup:absent", f.Pos(), "copy loop and Values.Deduplicate found") {
+			r.Check(!g.Reach(core.After(dd[len(dd)-1], nil), nil, nil)[cp[0]], rule, f.String(), "dedup-after-copy", g.Line(dd[len(dd)-1]), "Deduplicate runs after all values were copied")
+			// returns of a non-nil value pass Deduplicate
+			reach := g.ReachFromEntry(g.Calling(call("tsdb/engine/tsm1.Values.Deduplicate")), nil)
+			for _, x := range g.Exits {
+				if rs, ok := x.N.(*ast.ReturnStmt); ok && len(rs.Results) == 1 && !core.IsNilIdent(info, rs.Results[0]) {
+					r.Check(!reach[x], rule, f.String(), "return-without-dedup", g.Line(x), "values are returned only after Deduplicate")
+				}
+			}
+		}
+	}
+
+	// (8) snapshot swap is one critical section; sizes move with it
+	if f := r.Need(p, tsm1, "Cache.Snapshot"); f != nil {
+		const rule = "snapshot-accounting"
+		g := f.Graph()
+		info := f.Info()
+		store := core.LookupField(pk.Types, "Cache", "store")
+		swaps := g.Select(g.Assigning(store))
+		r.Check(len(swaps) >= 1, rule, f.String(), "swap:absent", f.Pos(), "store swap found")
+		stores := g.Select(g.Calling(call("sync/atomic.StoreUint64")))
+		// after the swap: size is zeroed and snapshotSize is set before returning
+		sizeF := core.LookupField(pk.Types, "Cache", "size")
+		snapSizeF := core.LookupField(pk.Types, "Cache", "snapshotSize")
+		zeroed, moved := false, false
+		for _, n := range stores {
+			for _, c := range core.CallsIn(info, n.N, call("sync/atomic.StoreUint64"), core.WalkOpts{}) {
+				if len(c.Args) != 2 {
+					continue
+				}
+				u, ok := ast.Unparen(c.Args[0]).(*ast.UnaryExpr)
+				if !ok {
+					continue
+				}
+				se, _ := ast.Unparen(u.X).(*ast.SelectorExpr)
+				fv := core.FieldOf(info, se)
+				base := ""
+				if se != nil {
+					base = core.ExprStr(se.X)
+				}
+				if fv == sizeF && base == "c" {
+					if v := core.ConstVal(info, c.Args[1]); v != nil && v.ExactString() == "0" {
+						zeroed = true
+					}
+				}
+				if fv == snapSizeF && base == "c" {
+					moved = true
+				}
+			}
+		}
+		r.Check(zeroed, rule, f.String(), "size-not-reset", f.Pos(), "the hot size is reset to 0 when the store is handed to the snapshot")
+		r.Check(moved, rule, f.String(), "snapshotSize-not-set", f.Pos(), "the snapshot's size is recorded in snapshotSize (reported size = hot + snapshot)")
+		if len(swaps) > 0 {
+			core.RuleMustPassN(r, f, g, rule, "atomic.StoreUint64 after swap", g.Calling(call("sync/atomic.StoreUint64")),
+				func(e *core.Edge) bool { // paths that return before the swap (in progress / retry of a failed snapshot) are exempt
+					return !g.Reach([]*core.Node{e.To}, nil, nil)[swaps[0]] && g.ReachFromEntry(nil, nil)[e.From] && !g.Reach(core.After(swaps[0], nil), nil, nil)[e.From]
+				})
+		}
+	}
+	if f := r.Need(p, tsm1, "Cache.ClearSnapshot"); f != nil {
+		const rule = "snapshot-accounting"
+		info := f.Info()
+		snapSizeF := core.LookupField(pk.Types, "Cache", "snapshotSize")
+		okZero := false
+		for _, c := range core.AllCalls(info, f.Decl.Body, call("sync/atomic.StoreUint64")) {
+			if len(c.Args) == 2 {
+				if u, ok := ast.Unparen(c.Args[0]).(*ast.UnaryExpr); ok {
+					if se, ok := ast.Unparen(u.X).(*ast.SelectorExpr); ok && core.FieldOf(info, se) == snapSizeF {
+						if v := core.ConstVal(info, c.Args[1]); v != nil && v.ExactString() == "0" {
+							okZero = true
+						}
+					}
+				}
+			}
+		}
+		r.Check(okZero, rule, f.String(), "snapshotSize-not-cleared", f.Pos(), "a successful flush gives the snapshot's size back (snapshotSize = 0)")
+	}
 }
